@@ -127,15 +127,18 @@ Lemma timed_stop_steps : forall isos late t g td h r,
      cpc (snd s) = CLockU (sg && negb (stopreq g)) /\ ilock (fst s) = None) /\
   (uowner g = None ->
      let s := cv_tstep isos late t g (at_pc (CLockU false)) in
-     cvlog (fst s) = ERet t CWaitStopFor (flag g) :: cvlog g /\ uowner (fst s) = Some t /\ ctodo (snd s) = td) /\
+     cpc (snd s) = CPredRet /\ uowner (fst s) = Some t /\ hu (snd s) = true /\ cvlog (fst s) = cvlog g) /\
+  (let s := cv_tstep isos late t g (at_pc CPredRet) in
+     cvlog (fst s) = ERet t CWaitStopFor (flag g) :: cvlog g /\ uowner (fst s) = uowner g /\ ctodo (snd s) = td) /\
   (uowner g = None -> cpc (snd (cv_tstep isos late t g (at_pc (CLockU true)))) = CPredTest) /\
   (* the deadline oracle: a sleeper is always enabled and leaves the sleep as soon as the deadline has passed *)
   (cv_enabled isos t g (at_pc CSleep) = true /\ cpc (snd (cv_tstep isos true t g (at_pc CSleep))) = CRelockI).
 Proof.
-  intros isos late t g td h r at_pc. unfold at_pc. split; [|split; [|split; [|split; [|split]]]].
+  intros isos late t g td h r at_pc. unfold at_pc. split; [|split; [|split; [|split; [|split; [|split]]]]].
   - intros Hs. cbn. rewrite Hs. cbn. destruct r; repeat split.
   - intros sg. cbn. split; reflexivity.
-  - intros Hu. cbn. rewrite Hu. cbn. destruct r; repeat split.
+  - intros Hu. cbn. rewrite Hu. cbn. repeat split.
+  - cbn. destruct r; repeat split.
   - intros Hu. cbn. rewrite Hu. reflexivity.
   - reflexivity.
   - cbn. destruct (isos t); reflexivity.
@@ -145,7 +148,7 @@ Qed.
    its own (with the deadline passed when it looks at the clock) returns or strictly decreases the rank *)
 Definition ts_rank (p : cv_pc) : nat :=
   match p with
-  | CStopChk => 1 | CLockI => 2 | CPredTest => 3 | CLockU _ => 4 | CStopChk2 _ => 5 | CCheck => 6
+  | CStopChk => 1 | CPredRet => 1 | CLockI => 2 | CPredTest => 3 | CLockU _ => 4 | CStopChk2 _ => 5 | CCheck => 6
   | CRelockI => 7 | CSleep => 8 | CPreSusp => 9 | CPush => 10 | CUnlockU => 11 | _ => 0
   end.
 
@@ -175,7 +178,8 @@ Proof.
   - (* CStopChk2 *) cbn. split; [assumption|right; split; [reflexivity|lia]].
   - (* CLockU *) destruct (uowner g); [discriminate He|]. destruct sg.
     + cbn. split; [assumption|right; split; [reflexivity|lia]].
-    + destruct r; cbn; (split; [assumption|left; eexists; repeat split]).
+    + cbn. split; [assumption|right; split; [reflexivity|lia]].
+  - (* CPredRet *) destruct r; cbn; (split; [assumption|left; eexists; repeat split]).
 Qed.
 
 (* the statement of Props/Properties_C07.v *)
